@@ -116,6 +116,19 @@ pub fn histories(p: u64, tier: Tier, heavy: bool) -> Vec<Vec<Action>> {
             tx(vec![OpSpec::bucket("create", &[], "b"), OpSpec::put(&["b"], "again", &small)]),
         ]);
     }
+    // a root branch page of three separators that fills its page to the byte (and one to four bytes
+    // less / more): six keys of about a third of a page; strict mode must accept all of them
+    if p <= 16384 && !heavy {
+        let exact = (p - 40) / 3 - 24;
+        for d in 0..9u64 {
+            let kl = exact + d - 4;
+            let mut mk = vec![OpSpec::bucket("create", &[], "ef")];
+            for i in 0..6 {
+                mk.push(OpSpec::put(&["ef"], &format!("E{}*{}", i, kl), &small));
+            }
+            out.push(vec![tx(mk), tx(vec![OpSpec::put(&["ef"], &format!("E6*{}", kl), &small), OpSpec::del(&["ef"], &format!("E0*{}", kl))]), Action::ReopenFlags(1), tx(vec![OpSpec::put(&["ef"], &format!("E0*{}", kl), &small)])]);
+        }
+    }
     // nested buckets, error kinds, delete nested then ancestor
     out.push(vec![
         tx(vec![OpSpec::bucket("create", &[], "x"), OpSpec::bucket("create", &["x"], "y"), OpSpec::put(&["x", "y"], "in", &third), OpSpec::put(&["x"], "y", &small), OpSpec::bucket("create", &[], "x"), OpSpec::bucket("getb", &["x"], "nope")]),
